@@ -463,7 +463,7 @@ func (r *reconstructor) reconstructBinaryValue(
 
 			num := p.Num + 1
 
-			if num >= len(r.buffers) {
+			if num < 1 || num >= len(r.buffers) {
 				return errInvalidPlaceholderNumValue
 			}
 
@@ -556,7 +556,7 @@ func (r *reconstructor) reconstructMap(rv reflect.Value) error {
 						n := int(num.Float())
 						n++
 
-						if n >= len(r.buffers) {
+						if n < 1 || n >= len(r.buffers) {
 							return errInvalidPlaceholderNumValue
 						}
 
@@ -580,7 +580,7 @@ func (r *reconstructor) reconstructMap(rv reflect.Value) error {
 						n := int(num.Float())
 						n++
 
-						if n >= len(r.buffers) {
+						if n < 1 || n >= len(r.buffers) {
 							return errInvalidPlaceholderNumValue
 						}
 
